@@ -306,7 +306,75 @@ def frame_stage(work, v, findings, prop, harness, mode, acc, seqs=100, limit=400
                                        args=e["args"], snapshot_unchanged=e["pre"] == e["post"], panic=e["panic"]))
 
 
-def sm_check(work, v, prop, tier, tables, traces, fields, design_props, note, frames=(), ctraces=()):
+def gen_cases_stage(work, v, findings, prop, harness, acc, module, family, fn, consts=None, invariants=("Laws", "Emit"), timeout=900):
+    """spec -> code for a pure function: TLC enumerates a finite family of
+    inputs, checks the laws of the specification operator on each and emits
+    (input, expected); the harness evaluates the real function on each."""
+    name = "%s_%s" % (module, family)
+    outp = work.path("cases_%s.ndjson" % name)
+    lines = ["SPECIFICATION Spec", "CONSTANTS", '  FAMILY = "%s"' % family, '  OUT = "%s"' % outp]
+    for k, val in (consts or {}).items():
+        lines.append("  %s = %s" % (k, val))
+    lines += ["INVARIANTS " + " ".join(invariants), "CHECK_DEADLOCK FALSE", ""]
+    res = lib.tlc(work, "gen_" + name, module, "\n".join(lines), workers=1, timeout=timeout)
+    summ = work.path("csum_%s.json" % name)
+    mm = work.path("cmm_%s.ndjson" % name)
+    rc, out, wall = lib.run([harness, "cases", "-cases", outp, "-fn", fn, "-prop", prop, "-mismatches", mm, "-summary", summ], timeout=1800)
+    if rc != 0:
+        raise Infra("case replay failed: " + out[-2000:])
+    s = json.load(open(summ))
+    if s["cases"] != res["distinct"]:
+        raise Infra("%s: %d cases replayed but TLC enumerated %d" % (name, s["cases"], res["distinct"]))
+    acc["states"] += res["distinct"]; acc["transitions"] += s["cases"]; acc["generated"] += res["generated"]
+    acc["evaluations"] += s["cases"]; acc["traces"] += s["cases"]
+    acc["distinct_cases"] = acc.get("distinct_cases", 0) + s["distinct_expected"]
+    acc["instances"].append(dict(name=name, kind="exhaustive case family", function=fn, cases=s["cases"],
+                                 distinct_expected_results=s["distinct_expected"], mismatches=s["mismatches"],
+                                 tlc_wall_s=round(res["wall"], 1), replay_wall_s=round(wall, 1)))
+    for smp in s.get("samples", [])[:1]:
+        acc["samples"].append(dict(kind="case", function=fn, family=family, **smp))
+    for rec in lib.read_ndjson(mm)[:3]:
+        triage(v, findings, prop, harness, rec, None)
+
+
+def check_cases_stage(work, v, findings, prop, harness, acc, module, fn, n, depth=3, forms=True, salt=0, timeout=1200):
+    """code -> spec for a pure function: seeded random inputs, the real
+    function's results recorded, every line validated by a Check_*.tla module."""
+    name = "%s_%s" % (module, fn)
+    casef = work.path("rand_%s.ndjson" % name)
+    cmd = [harness, "treegen", "-fn", fn, "-n", str(n), "-depth", str(depth), "-seed", str(lib.seed() * 15485863 + salt), "-out", casef]
+    if not forms:
+        cmd.append("-forms=false")
+    rc, out, _ = lib.run(cmd, timeout=900)
+    if rc != 0:
+        raise Infra("treegen failed: " + out[-2000:])
+    result = work.path("randres_%s.json" % name)
+    cfg = "\n".join(["SPECIFICATION Spec", "CONSTANTS", '  CASEFILE = "%s"' % casef, '  RESULT = "%s"' % result,
+                     "INVARIANT Done", "CHECK_DEADLOCK FALSE", ""])
+    res = lib.tlc(work, "chk_" + name, module, cfg, workers=1, timeout=timeout)
+    if not os.path.exists(result):
+        raise Infra("%s wrote no result" % module)
+    r = json.load(open(result))
+    if r["consumed"] != n or r["lines"] != n:
+        raise Infra("%s consumed %s of %s lines" % (module, r["consumed"], n))
+    acc["states"] += res["distinct"]; acc["traces"] += n; acc["trace_events"] += n; acc["evaluations"] += n
+    acc["tv"].append(dict(name="random-" + name, cases=n, max_depth=depth, alias_forms=forms, rejected_lines=len(r["bad"]), tlc_wall_s=round(res["wall"], 1)))
+    if r["bad"]:
+        lines = lib.read_ndjson(casef)
+        for b in r["bad"][:3]:
+            c = lines[b["line"] - 1]
+            rec = dict(property=prop, kind="case", fn=fn, exp=b["exp"], got=c["out"], detail=["line %d rejected by %s" % (b["line"], module),
+                       "expected %s" % json.dumps(b["exp"])[:300], "observed %s" % json.dumps(c["out"])[:300]],
+                       **{"in": c["in"], "class": "%s/%s/case" % (prop, fn)})
+            if "arg" in c:
+                rec["arg"] = c["arg"]
+            triage(v, findings, prop, harness, rec, None)
+    else:
+        c = lib.read_ndjson(casef, limit=3)[-1]
+        acc["samples"].append(dict(kind="validated-random-case", function=fn, input=c["in"], observed=c["out"]))
+
+
+def sm_check(work, v, prop, tier, tables, traces, fields, design_props, note, frames=(), ctraces=(), gens=(), rands=()):
     findings = Findings()
     harness = lib.build_harness(work)
     acc = dict(states=0, transitions=0, generated=0, traces=0, evaluations=0, trace_events=0,
@@ -321,12 +389,17 @@ def sm_check(work, v, prop, tier, tables, traces, fields, design_props, note, fr
         cond_trace_stage(work, v, findings, prop, harness, name, t, t.get("fields", COND_FIELDS), acc)
     for fr in frames:
         frame_stage(work, v, findings, prop, harness, acc=acc, **fr)
+    for gs in gens:
+        gen_cases_stage(work, v, findings, prop, harness, acc, **gs)
+    for rs in rands:
+        check_cases_stage(work, v, findings, prop, harness, acc, **rs)
     v.cov = dict(
         states=acc["states"], transitions=acc["transitions"],
         traces_validated_against_impl=acc["traces"],
         samples=acc["samples"][:6],
         evaluations=acc["evaluations"],
-        distinct_nontrivial=acc["transitions"] + acc["trace_events"],
+        distinct_nontrivial=(acc["transitions"] + acc["trace_events"]) if not acc.get("distinct_cases") else
+                            (acc["distinct_cases"] + sum(i.get("table_transitions", 0) for i in acc["instances"])),
         rule="distinct = distinct abstract transitions (state, call) of the TLC-enumerated table, each replayed "
              "on the real package, plus recorded random-history events validated by the trace spec; "
              "non-trivial = the call is enabled in a live state of the bounded instance",
@@ -441,7 +514,9 @@ def c09(work, v, tier):
               ("ro-set", dict(Kinds=["AND", "LIST"], InitOpts=[["ronly"]], MaxLen=1, Vals=["a"], PushLens=[1],
                               Fams=["settings", "policy", "opts"], OptFlags=["ronly"], depth=2, walks=200 if q else 2000, wlen=30))]
     tables.append(("cond-ro", dict(machine="cond", KwArgs=["k", "nil"], OpArgs=["Eq", "user", "nil"], ExArgs=["nil", "s:v", "S"],
-                                   CFams=["set", "opts", "life", "settings", "closures"], COptFlags=["ronly", "paren"], depth=2, walks=300 if q else 3000)))
+                                   CFams=["set", "opts", "life", "closures"], COptFlags=["ronly"], depth=2, walks=300 if q else 3000)))
+    tables.append(("cond-ro-set", dict(machine="cond", KwArgs=["k"], OpArgs=["Eq"], ExArgs=["s:v"],
+                                       CFams=["settings", "opts"], COptFlags=["ronly", "paren"], depth=2, walks=200 if q else 2000)))
     traces = [("rand", dict(traces=150 if q else 1500, len=80, fams=["list", "opts", "policy", "life", "settings", "marshal"], mode="all"))]
     return sm_check(work, v, "C09", tier, tables, traces, ALL_FIELDS,
                     ["StepProps: ReadOnlyFrame over the whole action alphabet (only SetReadOnly / SetErr change a read-only state; Free returns an error)"],
@@ -574,6 +649,23 @@ def c06(work, v, tier):
                     "x {no-nesting, no-padding, parenthetical, encapsulation} starting from Cond(...) and Init(); Keyword / Operator / Expression, "
                     "Valid() and the exact String() text compared after every step; random histories validated by CondTrace.tla",
                     ctraces=[("rand", dict(traces=300 if q else 3000, len=50))])
+
+
+@check("C02")
+def c02(work, v, tier):
+    q = tier == "quick"
+    fams = ["root", "child", "shape1", "shape2", "deep", "alias"] + ([] if q else ["shape3"])
+    return sm_check(work, v, "C02", tier, [], [], [],
+                    ["RdLaws on every generated tree: output has no double blank and no blank at either end; Condense idempotent; "
+                     "a stack renders exactly like the same stack without the children that contribute nothing (no dangling operator); BASIC renders empty"],
+                    "String() against the token-level grammar of spec/Render.tla. spec -> code: TLC enumerates exhaustive families (every option "
+                    "combination on the root and on a nested stack; all child sequences up to width 2-3 over 22 alternatives: leaves with embedded / "
+                    "leading / trailing blanks, the empty string, 2-/3-/4-byte runes, numbers, bools, empty / BASIC / NOT / folded NOT / symbol NOT / "
+                    "parenthetical stacks, valid and invalid Conditions; nesting depth 3; alias forms) and the real String() is compared token by token. "
+                    "code -> spec: random trees of depth <= 3-4 with independent random configuration on every node, arbitrary token mixes and alias "
+                    "forms are rendered by the real code and accepted line by line by Check_Render.tla",
+                    gens=[dict(module="Gen_Render", family=f, fn="render") for f in fams],
+                    rands=[dict(module="Check_Render", fn="render", n=4000 if q else 40000, depth=3 if q else 4)])
 
 
 def replay(prop, path, work):
